@@ -1,10 +1,11 @@
 #!/bin/bash
-# usage: try_mutation.sh <seed id> [tier]
+# usage: try_mutation.sh <seed id> [tier] [check id (default: the property the change was written for)]
 # Applies /verif/seeded/<id>/patch.diff in a scratch git worktree of /repo HEAD (so that /repo itself and checks running
 # against it are not disturbed), runs the property's check against that tree (VERIF_REPO), records the result in meta.json
 # and removes the worktree.  Equivalent to: git -C /repo apply patch; ./check ...; git -C /repo checkout -- .
 SID=$1; TIER=${2:-quick}
 PID=$(/venv/bin/python -c "import json;print(json.load(open('/verif/seeded/$SID/meta.json'))['property'])")
+PID=${3:-$PID}
 WT=/tmp/wt/mut_$SID
 git -C /repo worktree remove --force $WT >/dev/null 2>&1
 git -C /repo worktree add --detach -f $WT HEAD >/dev/null 2>&1 || { echo "$SID: cannot create worktree"; exit 2; }
